@@ -75,6 +75,9 @@ var debugCalls = os.Getenv("C18_DEBUG") != ""
 type verifier struct{}
 
 func (verifier) VerifyJSONs(ctx context.Context, reqs []gmsl.VerifyJSONRequest) ([]gmsl.VerifyJSONResult, error) {
+	if env == "verr" { // the keys cannot be fetched
+		return nil, fmt.Errorf("verifier: key database error")
+	}
 	out := make([]gmsl.VerifyJSONResult, len(reqs))
 	for i, r := range reqs {
 		key, ok := serverKeys[string(r.ServerName)]
@@ -87,7 +90,13 @@ func (verifier) VerifyJSONs(ctx context.Context, reqs []gmsl.VerifyJSONRequest) 
 	return out, nil
 }
 
-func notRejected(string) bool { return false }
+func notRejected(string) bool { return env == "rejall" }
+
+// env is the behaviour of the application's callbacks during one operation ("" = normal): qnil / qerr = the
+// UserIDForSender querier knows nobody / fails, verr = the verifier fails, perr / pnil = event and state
+// providers fail / return nothing, rejall = every event is reported as rejected. All are answers the callbacks'
+// contracts allow. The worker executes records one at a time, so a package variable is enough.
+var env string
 
 // ---------------------------------------------------------------- accessors
 
@@ -271,6 +280,10 @@ func (s *pipeState) mutate(name string) outcome {
 func (s *pipeState) verifySignatures() outcome {
 	e := s.cur
 	s.do("VerifySignatures", func() error { return gmsl.VerifyEventSignatures(bg, e, verifier{}, userIDForSender) })
+	// the same through a real key ring that holds the servers' keys (it applies the version's validity rule)
+	if env == "" {
+		s.do("VerifySignatures", func() error { return gmsl.VerifyEventSignatures(bg, e, sharedKeyRing(), userIDForSender) })
+	}
 	return s.dov("VerifySignatures:all", func() { _ = gmsl.VerifyAllEventSignatures(bg, []gmsl.PDU{e, e}, verifier{}, userIDForSender) })
 }
 
@@ -322,14 +335,25 @@ func (s *pipeState) authCheckEvent() outcome {
 
 // probes are well-formed events of the room that are checked against a provider holding the subject.
 func (c *roomCtx) probes() []gmsl.PDU {
+	if c.prb != nil {
+		return c.prb
+	}
 	var out []gmsl.PDU
+	defer func() { c.prb = out }()
 	for _, n := range []string{"msg", "jbob", "create"} {
 		if p := c.pdu[n]; p != nil {
 			out = append(out, p)
 		}
 	}
-	for _, typ := range []string{"member", "member_tpi", "power_levels", "redaction", "aliases", "join_rules"} {
-		raw := withContentHash(marshalTree(c.subjectTree(typ)), c.fmtV1)
+	for _, typ := range []string{"member", "member_tpi", "power_levels", "redaction", "aliases", "join_rules", "knock"} {
+		var t tree
+		if typ == "knock" { // carol knocks: the version's knocking rule decides
+			t = c.subjectTree("member")
+			t["content"] = c.memberContent("carol", "knock")
+		} else {
+			t = c.subjectTree(typ)
+		}
+		raw := withContentHash(marshalTree(t), c.fmtV1)
 		if ev, o := c.parse(raw); o.Out == "ok" {
 			out = append(out, ev)
 		}
@@ -384,6 +408,7 @@ func (s *pipeState) addToProvider() outcome {
 // ---------------------------------------------------------------- state resolution
 
 type resolveInput struct {
+	more       [][]gmsl.PDU // further state sets
 	setA, setB []gmsl.PDU
 	auth       []gmsl.PDU
 	all        []gmsl.PDU
@@ -435,7 +460,64 @@ func (s *pipeState) resolveInput(role string) resolveInput {
 		in.auth = append(in.auth, dep)
 	}
 	in.all = append(append([]gmsl.PDU{}, in.auth...), c.pdu["msg"], s.cur)
+	switch role {
+	case "dup": // every event listed twice, the subject in both places
+		in.setB = append(append(in.setB, s.cur), append(in.setB, s.cur)...)
+		in.setA = append(in.setA, in.setA...)
+		in.auth = append(append(in.auth, s.cur), append(in.auth, s.cur)...)
+		in.all = append(in.all, in.all...)
+	case "bare":
+		// Nothing the checks need is part of the state sets: the create, power levels and member events are only
+		// reachable through the auth events each event cites, and some events do not cite all of them. One
+		// checker judges them one after the other.
+		in.setA = []gmsl.PDU{c.pdu["jr"], c.pdu["hv"]}
+		in.setB = []gmsl.PDU{c.pdu["hv"], s.cur}
+		in.more = nil
+		if dep := s.dependent(); dep != nil {
+			in.setB = append(in.setB, dep)
+		} else {
+			in.setB = append(in.setB, c.pdu["jr0"])
+		}
+		for _, omit := range []string{"create", "pl", "jalice"} {
+			if l := s.lacking(omit); l != nil {
+				in.more = append(in.more, []gmsl.PDU{c.pdu["hv"], l})
+				in.auth = append(in.auth, l)
+			}
+		}
+		in.auth = append(in.auth, s.cur)
+	}
 	return in
+}
+
+// sets are the state sets handed to the resolvers.
+func (in resolveInput) sets() [][]gmsl.PDU {
+	return append([][]gmsl.PDU{in.setA, in.setB}, in.more...)
+}
+
+// lacking builds a well-formed join rules event of alice whose auth_events omit one of the events its check needs.
+func (s *pipeState) lacking(omit string) gmsl.PDU {
+	c := s.room
+	if c.lack == nil {
+		c.lack = map[string]gmsl.PDU{}
+	}
+	if ev, ok := c.lack[omit]; ok {
+		return ev
+	}
+	var auth []string
+	for _, n := range []string{"create", "jalice", "pl"} {
+		if n != omit {
+			auth = append(auth, n)
+		}
+	}
+	d := c.depth
+	t := c.newEvent("lack"+omit, "m.room.join_rules", strp(""), "alice", tree{"join_rule": "knock", "x": omit}, auth, []string{"msg"})
+	c.depth = d
+	var ev gmsl.PDU
+	if p, o := c.parse(withContentHash(marshalTree(t), c.fmtV1)); o.Out == "ok" {
+		ev = p
+	}
+	c.lack[omit] = ev
+	return ev
 }
 
 // dependent builds (once per pipeline) a well-formed join rules event of alice (level 50) whose auth_events cite the subject.
@@ -508,6 +590,12 @@ func splitConflicts(sets ...[]gmsl.PDU) (conflicted, unconflicted []gmsl.PDU) {
 type stubStateProvider struct{ events map[string]gmsl.PDU }
 
 func (p stubStateProvider) StateIDsBeforeEvent(ctx context.Context, event gmsl.PDU) ([]string, error) {
+	switch env {
+	case "perr":
+		return nil, fmt.Errorf("state provider: error")
+	case "pnil":
+		return nil, nil
+	}
 	ids := make([]string, 0, len(p.events))
 	for id := range p.events {
 		ids = append(ids, id)
@@ -517,6 +605,12 @@ func (p stubStateProvider) StateIDsBeforeEvent(ctx context.Context, event gmsl.P
 }
 
 func (p stubStateProvider) StateBeforeEvent(ctx context.Context, roomVer gmsl.RoomVersion, event gmsl.PDU, eventIDs []string) (map[string]gmsl.PDU, error) {
+	switch env {
+	case "perr":
+		return nil, fmt.Errorf("state provider: error")
+	case "pnil":
+		return nil, nil
+	}
 	out := map[string]gmsl.PDU{}
 	for _, id := range eventIDs {
 		if e, ok := p.events[id]; ok {
@@ -528,6 +622,12 @@ func (p stubStateProvider) StateBeforeEvent(ctx context.Context, roomVer gmsl.Ro
 
 func eventProviderOver(events map[string]gmsl.PDU) gmsl.EventProvider {
 	return func(roomVer gmsl.RoomVersion, eventIDs []string) ([]gmsl.PDU, error) {
+		switch env {
+		case "perr":
+			return nil, fmt.Errorf("event provider: error")
+		case "pnil":
+			return nil, nil
+		}
 		var out []gmsl.PDU
 		for _, id := range eventIDs {
 			if e, ok := events[id]; ok {
@@ -556,16 +656,23 @@ func (s *pipeState) resolve(entry, role string) outcome {
 	switch entry {
 	case "new":
 		return s.do(n, func() error {
-			_, err := gmsl.ResolveConflictsNew(ver, [][]gmsl.PDU{in.setA, in.setB}, in.auth, userIDForSender, notRejected)
+			_, err := gmsl.ResolveConflictsNew(ver, in.sets(), in.auth, userIDForSender, notRejected)
 			return err
 		})
 	case "old":
 		return s.do(n, func() error {
-			_, err := gmsl.ResolveConflicts(ver, append(append([]gmsl.PDU{}, in.setA...), in.setB...), in.auth, userIDForSender, notRejected)
+			var flat []gmsl.PDU
+			for _, set := range in.sets() {
+				flat = append(flat, set...)
+			}
+			_, err := gmsl.ResolveConflicts(ver, flat, in.auth, userIDForSender, notRejected)
 			return err
 		})
 	case "direct":
-		conf, unconf := splitConflicts(in.setA, in.setB)
+		conf, unconf := splitConflicts(in.sets()...)
+		if role == "dup" { // the caller's lists carry every event twice
+			conf, unconf = append(conf, conf...), append(unconf, unconf...)
+		}
 		switch c.impl.StateResAlgorithm() {
 		case gmsl.StateResV1:
 			return s.dov(n+":v1", func() { _ = gmsl.ResolveStateConflicts(conf, in.auth, userIDForSender) })
@@ -573,7 +680,7 @@ func (s *pipeState) resolve(entry, role string) outcome {
 			algo := c.impl.StateResAlgorithm()
 			s.dov(n+":v2", func() { _ = gmsl.ResolveStateConflictsV2(conf, unconf, in.auth, userIDForSender, notRejected) })
 			return s.dov(n+":v2new", func() {
-				_ = gmsl.ResolveStateConflictsV2New(algo, [][]gmsl.PDU{in.setA, in.setB}, in.auth, userIDForSender, notRejected)
+				_ = gmsl.ResolveStateConflictsV2New(algo, in.sets(), in.auth, userIDForSender, notRejected)
 			})
 		}
 	case "topo_auth":
@@ -626,8 +733,17 @@ func (s *pipeState) resolve(entry, role string) outcome {
 
 // runOp executes one pipeline operation on a parsed event.
 func (s *pipeState) runOp(op string) {
+	if i := strings.Index(op, "@"); i >= 0 {
+		env = op[i+1:]
+		defer func() { env = "" }()
+		op = op[:i]
+	}
 	parts := strings.Split(op, ":")
 	switch parts[0] {
+	case "Handle":
+		s.handle(parts[1])
+	case "Perform":
+		s.performInvite()
 	case "Accessor":
 		s.accessor(parts[1])
 	case "Helper":
